@@ -5,22 +5,27 @@ import re
 def unsafe_decode(string):
   return json.loads(string)
 
+def _reject_constant(name):
+  raise gfapy.FormatError("{} is not a JSON value".format(name))
+
 def decode(string):
   validate_all_printable(string)
-  return unsafe_decode(string)
+  try:
+    # NaN, Infinity and -Infinity are accepted by json.loads, but are not JSON
+    return json.loads(string, parse_constant = _reject_constant)
+  except gfapy.Error:
+    raise
+  except Exception as err:
+    raise gfapy.FormatError(
+      "{} is not a valid JSON string\n".format(repr(string))+
+      "json.loads raised a {} exception\n".format(err.__class__.__name__)+
+      "error message: {}".format(str(err))) from err
 
 def validate_encoded(string):
   # both regex and JSON parse are necessary,
   # because string can be invalid JSON and
   # JSON can contain forbidden chars (non-printable)
-  validate_all_printable(string)
-  try:
-    json.loads(string)
-  except Exception as err:
-    raise Exception(
-    "{} is not a valid JSON string\n".format(repr(string))+
-    "json.loads raised a {} exception\n".format(err.__class__.__name__)+
-    "error message: {}").format(str(err)) from err
+  decode(string)
 
 def validate_decoded(obj):
   if isinstance(obj, gfapy.FieldArray):
